@@ -28,9 +28,6 @@ def model_check(rep, tier, wd):
 def script(op, motion, count, visual):
     """keys of one run: operator op ('d'|'y') with the motion"""
     ks = []
-    if motion != DOUBLE and motion[:1] in (b"f", b"F", b"t", b"T") and len(motion) > 1 and count:
-        # the find commands read one target character per repetition
-        motion = motion[:1] + motion[1:] * count
     if visual:
         ks.append(b"v")
         if count:
